@@ -215,6 +215,29 @@ def c12(m, o):
         viol.append("initial population labels differ from compartments")
     if np.abs(np.asarray(ip.values, dtype=float) - out[0]).max() > 1e-9 * (1 + np.abs(out[0]).max()):
         viol.append("row 0 of outputs differs from the initial population")
+    if o.get("variant_program") is not None:
+        # a second model with the same names and another layout, built and run while this one is alive: this one's
+        # compartments and flow ends keep their positions
+        import impl
+        m2, e2, _ = impl.build(dict(o["variant_program"], obs=[]))
+        if e2 is None:
+            try:
+                m2.run(p, solver="euler", jit=False)
+            except BaseException as e:  # noqa
+                if type(e).__name__ == "ObservationTimeLimit":
+                    raise
+            checks += 2
+            bad = [(i, c.idx) for i, c in enumerate(m.compartments) if c.idx != i]
+            if bad:
+                viol.append("after another model (same names, other layout) was built, compartments of this model claim positions %s (position, claimed)" % bad[:4])
+            for i, f in enumerate(m.flows):
+                for end in (f.source, f.dest):
+                    if end and str(end) in pos and end.idx != pos[str(end)]:
+                        viol.append("after another model was built, flow %d (%s): endpoint %s claims index %s, is at %d" % (i, f.name, end, end.idx, pos[str(end)]))
+                        break
+            df2 = m.get_outputs_df()
+            if list(df2.columns) != names or np.abs(df2.to_numpy() - out).max() > 0:
+                viol.append("after another model was built, the outputs data frame of this model changed")
     if o.get("dist") is not None:
         # the columns carry the people of the compartment they are labelled with: per original compartment
         # the columns of row 0 add up to the population the definition gave that compartment
@@ -1153,6 +1176,38 @@ def c18_disparity(m, o):
             j = int(bad[0])
             viol.append("default solver, S=%g E=%g progression %g recovery %g contact %g: compartment %s falls to %r although it never exceeds %r"
                         % (n_, e0, sigma, gamma, beta, mm.compartments[j], float(lo[j]), float(np.abs(out[:, j]).max())))
+    # many internal steps between two output times (a fast exchange that stays positive; outputs far apart): still
+    # the solution, hence not negative
+    for which in o.get("long", ["stiff", "sparse"]):
+        if which == "stiff":
+            mm = CompartmentalModel([0.0, 3.0], ["A", "B", "S", "I", "R"], ["I"], timestep=1.0)
+            mm.set_initial_population({"A": 300.0, "B": 10.0, "S": 990.0, "I": 10.0})
+            mm.add_transition_flow("ab", 400.0, "A", "B")
+            mm.add_transition_flow("ba", 200.0, "B", "A")
+            mm.add_infection_frequency_flow("inf", 0.4, "S", "I")
+            mm.add_transition_flow("rec", 0.1, "I", "R")
+        else:
+            mm = CompartmentalModel([0.0, 1600.0], ["S", "I", "R"], ["I"], timestep=800.0)
+            mm.set_initial_population({"S": 990.0, "I": 10.0})
+            mm.add_infection_frequency_flow("inf", 0.3, "S", "I")
+            mm.add_transition_flow("rec", 0.1, "I", "R")
+            mm.add_transition_flow("wane", 0.01, "R", "S")
+        mm.run(solver="solve_ivp", jit=False)
+        out = np.asarray(mm.outputs, dtype=float)
+        checks += 1
+        if not np.isfinite(out).all():
+            viol.append("default solver, %s case: non-finite outputs" % which)
+            continue
+        lo = out.min(axis=0)
+        own = 20 * 1.4e-4 * (1 + np.abs(out).max(axis=0))
+        bad = np.where(lo < -own)[0]
+        if len(bad):
+            j = int(bad[0])
+            viol.append("default solver, %s case (many internal steps between two output times): compartment %s falls to %r"
+                        % (which, mm.compartments[j], float(lo[j])))
+        checks += 1
+        if abs(out.sum(axis=1) - out[0].sum()).max() > 1e-6 * out[0].sum():
+            viol.append("default solver, %s case: the closed population drifts by %r" % (which, float(abs(out.sum(axis=1) - out[0].sum()).max())))
     return {"checks": checks, "violations": viol[:6]}
 
 
@@ -1671,7 +1726,40 @@ def c11(m, o):
             viol.append("after a runner for the derived outputs %s was built, a rebuilt run returns %s instead of %s (or other numbers)"
                         % (keys[:1], list(mm.derived_outputs), keys))
 
+    def other_models_options():
+        """the default solver on this model, then an unrelated model run with its own solver options, then an
+        independently built copy of this model: bit-identical to the first run"""
+        nonlocal checks
+        from summer2 import CompartmentalModel
+        full = [c for c in calls if c["call"] == "run" and len(c.get("params") or {}) >= 4]
+        if not full:
+            return
+        given = fl(full[0]["params"])
+        ma, err, why = impl.build(dict(o["program"], obs=[]))
+        mb, _, _ = impl.build(dict(o["program"], obs=[]))
+        try:
+            ma.run(dict(given), jit=False)
+        except BaseException:  # noqa
+            return
+        ref = bits(ma)
+        other = CompartmentalModel([0.0, 3.0], ["U", "V"], ["V"], timestep=1.0)
+        other.set_initial_population({"U": 50.0, "V": 5.0})
+        other.add_infection_frequency_flow("uv", 0.7, "U", "V")
+        other.run(solver="solve_ivp", solver_args={"rtol": 1e-9, "atol": 1e-9}, jit=False)
+        other.run(solver="rk4", jit=False)
+        mb.run(dict(given), jit=False)
+        checks += 1
+        if bits(mb) != ref:
+            viol.append("after an unrelated model was run with its own solver options, an independently built copy of the "
+                        "model no longer reproduces the first run of %s bit for bit (default solver)" % (given,))
+        ma.run(dict(given), jit=False, rebuild=True)
+        checks += 1
+        if bits(ma) != ref:
+            viol.append("after an unrelated model was run with its own solver options, a rebuilt run of the same object no longer "
+                        "reproduces its first run bit for bit (default solver)")
+
     whitelist_step()
+    other_models_options()
     first = execute(calls, "history")
     # an independently built object, the run calls alone, in reverse order, each on a rebuilt runner
     runs = [c for c in calls if c["call"] in ("run", "set_defaults")]
